@@ -488,6 +488,7 @@ func c04(r *Report) {
 		// ... also through a traffic-shaped listener: closing the shaped client connection (how one
 		// side's end is passed on) does not wait for the opposite copy direction
 		shapedCloseNeverWaitsRule(r)
+		bucketDrainRule(r)
 	})
 
 	r.Guard("C04.R6", "no unflushed buffer sits between the two sockets", func() {
@@ -507,6 +508,42 @@ func c04(r *Report) {
 // tunnelEOSRule: a finished copy direction passes the end of stream on, however
 // the copy ended (shared by C04.R5 and C03.R5).
 func tunnelEOSRule(r *Report, hcr *ssa.Function, cops []tunnelCopier) {
+	// the copier tells a destination that can half-close by its CloseWrite method: a module type
+	// that offers CloseWrite must really half-close (a wrapper that answers nil when the connection
+	// it wraps cannot do it makes the copier skip the full close, and the peer never sees the end)
+	for _, f := range r.W.Funcs() {
+		if f.Name() != "CloseWrite" || f.Signature.Recv() == nil || f.Blocks == nil {
+			continue
+		}
+		r.Touch(f)
+		g := G(f)
+		isCW := func(i ssa.Instruction) bool {
+			c, ok := i.(ssa.CallInstruction)
+			if !ok {
+				return false
+			}
+			if c.Common().IsInvoke() {
+				return c.Common().Method.Name() == "CloseWrite"
+			}
+			sc := c.Common().StaticCallee()
+			return sc != nil && sc.Name() == "CloseWrite" && sc != f
+		}
+		bad := g.PathTo([]ssa.Instruction{g.Entry()}, true, isCW, func(i ssa.Instruction) bool {
+			ret, isR := i.(*ssa.Return)
+			if !isR || len(ret.Results) == 0 {
+				return isR
+			}
+			for _, v := range retVals(ret, len(ret.Results)-1) {
+				for _, l := range resolveAll(v) {
+					if isNilConst(l) {
+						return true
+					}
+				}
+			}
+			return false
+		})
+		r.Decide("path", fnName(f)+": reports success only after half-closing the connection it wraps", bad == nil, "every successful return follows a CloseWrite of the wrapped connection", "the method can answer nil without having half-closed anything (the wrapped connection has no CloseWrite): the tunnel copier takes that for a half-close and skips the full close, so the peer never sees end-of-stream", f.Pos())
+	}
 	w := r.W
 	g := G(hcr)
 	wake := map[string]bool{"(net.Conn).Close": true, "(*net.TCPConn).CloseWrite": true, "(net.Conn).SetReadDeadline": true, "(net.Conn).SetDeadline": true, "(*crypto/tls.Conn).CloseWrite": true}
